@@ -27,7 +27,7 @@ fn good_args(id: usize) -> &'static str {
     match id {
         2 => " 5", 4 => " -3", 6 => " ON", 7 => " 1,2,3", 8 => " -4,5", 9 => " 'hi'", 11 => " #13abc", 13 => " 1.5", 14 => " -2.25E1", 18 => " 1",
         22 => " #HFF", 23 => " -1,\"x\",OFF", 24 => " 7", 26 => " -1,2,-3",
-        36 => " 1,2,3,4,5,6,7,8,9,10", 37 => " 1.5,2", 38 => " 3", 39 => " -220",
+        36 => " 1,2,3,4,5,6,7,8,9,10", 37 => " 1.5,2", 38 => " 3", 39 => " -220", 42 => " 18446744073709551615",
         _ => "",
     }
 }
@@ -108,8 +108,21 @@ fn g_compound(_seed: u64, emit: Emit) {
 }
 
 // ---------------------------------------------------------------- C03
+fn to_radix(mut x: u128, radix: u128) -> String {
+    let mut d = vec![];
+    loop { d.push(b"0123456789ABCDEF"[(x % radix) as usize]); x /= radix; if x == 0 { break; } }
+    d.reverse();
+    String::from_utf8(d).unwrap()
+}
 fn int_literals() -> Vec<String> {
     let mut v: Vec<String> = vec![];
+    // every radix at the digit-count boundaries of 8, 16, 32 and 64 bit values
+    for bits in [7u32, 8, 15, 16, 31, 32, 63, 64, 65, 66, 67] {
+        for x in [(1u128 << bits) - 1, 1u128 << bits, (1u128 << bits) + 7] {
+            v.push(format!("#H{}", to_radix(x, 16))); v.push(format!("#Q{}", to_radix(x, 8))); v.push(format!("#B{}", to_radix(x, 2))); v.push(to_radix(x, 10));
+            v.push(format!("#Q000{}", to_radix(x, 8)));
+        }
+    }
     for x in ["0", "1", "7", "127", "128", "255", "256", "32767", "32768", "65535", "65536", "2147483647", "2147483648", "4294967295", "4294967296",
               "9223372036854775807", "9223372036854775808", "18446744073709551615", "18446744073709551616", "340282366920938463463374607431768211456", "007", "00000000000000000000000001"] {
         v.push(x.to_string()); v.push(format!("-{x}")); v.push(format!("+{x}"));
@@ -121,7 +134,7 @@ fn int_literals() -> Vec<String> {
     }
     v
 }
-/// every integer-typed handler with ~115 literals at and beyond every type bound, in all four notations, signed,
+/// every integer-typed handler with ~280 literals at and beyond every type bound, in all four notations, signed,
 /// padded, of the wrong kind; booleans, strings, blocks and reals with valid and invalid literals; parameter counts
 /// 0..=12 for every handler
 fn g_args(_seed: u64, emit: Emit) {
@@ -187,6 +200,19 @@ fn g_responses(_seed: u64, emit0: Emit) {
               "SOUR:LEV 200;LEV?;:LEV?", "*IDN?;*IDN?", "NOPE?", "SOUR:LEV? 1", "MEAS:DOUB? 'x'"] {
         if !emit(run(format!("{q}\n").into_bytes())) { return; }
         if !emit(run(format!("*RST;{q};{q}\n{q}\n").into_bytes())) { return; }
+    }
+    // integers: powers of ten and two and their neighbours, values with zero digit groups, every type bound
+    let mut ints: Vec<i128> = vec![];
+    for k in 0..=19u32 { let p = 10i128.pow(k); for d in [1i128, 2, 5, 9] { for e in [-1i128, 0, 1, 7, 10, 100_000_000, 99_999_999] { ints.push(d * p + e); } } }
+    for k in 0..=64u32 { let p = 1i128 << k; ints.extend([p - 1, p, p + 1]); }
+    ints.extend([5_000_000_001, 4_000_000_000, 3_000_000_000_000_000_005, 1_000_000_000_000_000_001, 1_000_000_001_000_000_000, 100_000_000_000_000_000, 10_000_000_000_000_000_000, 18_000_000_000_000_000_000]);
+    ints.sort(); ints.dedup();
+    for x in &ints {
+        if *x >= 0 && *x <= u64::MAX as i128 { if !emit(run(format!("MATH:ECHO? {x}\n").into_bytes())) { return; } }
+        for y in [*x, -*x] {
+            if y >= i64::MIN as i128 && y <= i64::MAX as i128 { if !emit(run(format!("MATH:MULT? {y},1;:MEAS:TRI? {},'z',1\n", (y % 128) as i8).into_bytes())) { return; } }
+        }
+        if *x <= 255 { if !emit(run(format!("SOUR:LEV {x};LEV?;:LEV?\n").into_bytes())) { return; } }
     }
     let alpha: [&[u8]; 7] = [b"a", b"\"", b"'", b";", b",", b"\xc3\xa9", b" "];
     for a in 0..alpha.len() { for b in 0..=alpha.len() { for c in 0..=alpha.len() {
@@ -425,7 +451,9 @@ fn sequences(pool: &[&str], max_len: usize, tail: &str, emit: Emit) -> bool {
 /// header in front of further units), and every sequence of 1..=9 operations from {undefined header, handler error,
 /// SYSTem:ERRor?, SYSTem:ERRor:COUNt?} followed by a complete drain; every standard error number raised by a handler
 /// and read back (number and description)
-fn g_queue(_seed: u64, emit: Emit) {
+fn g_queue(_seed: u64, emit0: Emit) {
+    // every sequence on the logging device (order of reports) and on the device that owns the crate's queue directly
+    let emit: Emit = &mut |sc: Scenario| -> bool { let input = sc.input.clone(); emit0(sc) && emit0(Scenario { mode: Mode::RunRaw, input, whole: false, base: None }) };
     if !sequences(QOPS, 4, "", emit) { return; }
     if !sequences(QATOMS, 9, DRAIN, emit) { return; }
     for n in -420i32..=60 {
@@ -548,13 +576,13 @@ fn g_finality(_seed: u64, emit: Emit) {
 
 pub const FAMILIES: &[Family] = &[
     Family { name: "headers", props: &["C01"], kinds: &["handler", "error", "panic", "hang"], gen: g_headers,
-        bound: "interface T2 (42 declarations + 3 requested standard commands): every allowed spelling x 3 letter cases x relative/absolute; per level every cut between short and long form, two extensions, level dropped / doubled / appended; query mark toggled; 8 undeclared standard headers" },
+        bound: "interface T2 (43 declarations + 3 requested standard commands): every allowed spelling x 3 letter cases x relative/absolute; per level every cut between short and long form, two extensions, level dropped / doubled / appended; query mark toggled; 8 undeclared standard headers" },
     Family { name: "compound", props: &["C02"], kinds: &["handler", "flush", "error", "panic", "hang"], gen: g_compound,
         bound: "every message of 1..=3 units from a pool of 30 (27 930 messages), the 1- and 2-unit ones also after 5 different preceding messages and with a trailing ';'" },
     Family { name: "args", props: &["C03"], kinds: &["args", "handler", "error", "panic", "hang"], gen: g_args,
-        bound: "4 single-integer handlers x 113 literals; 6 multi-parameter patterns x 113 x 5; 22 boolean, 14 string, 12 block, 33 real literals; parameter counts 0..=12 for all 45 declarations" },
+        bound: "4 single-integer handlers x 278 literals; 6 multi-parameter patterns x 278 x 5; 22 boolean, 14 string, 12 block, 33 real literals; parameter counts 0..=12 for all 46 declarations" },
     Family { name: "responses", props: &["C04"], kinds: &["response", "flush", "writer", "panic", "hang"], gen: g_responses,
-        bound: "31 queries alone and in compound messages; strings / blocks of every 1..=3 element combination of {a \" ' ; , e-acute SP}; payload lengths 0..=1000; 39 real literals echoed as f32 and f64, 5 special-value sets; logging writer vs std Vec writer vs heapless writers of 64 and 1024 bytes" },
+        bound: "31 queries alone and in compound messages; ~900 integers (powers of 10 and 2 and neighbours, zero digit groups, type bounds) echoed as u64 / i64 / i8 / u8; strings / blocks of every 1..=3 element combination of {a \" ' ; , e-acute SP}; payload lengths 0..=1000; 39 real literals echoed as f32 and f64, 5 special-value sets; logging writer vs std Vec writer vs heapless writers of 64 and 1024 bytes" },
     Family { name: "robust", props: &["C05"], kinds: &["panic", "hang"], gen: g_robust,
         bound: "token soup over 27 tokens: all sequences of 1..=3 (with and without NL), 200 000 sampled sequences of 4..=12 (seeded); plus structured inputs (0..=14 parameters, blocks short by 0..=3 bytes, very long numbers / mnemonics / reals); each through run (unbounded writer and writers of 1..=64 bytes) and process with N in {1,2,3,4,8,16}; a scenario without progress for 30 s is reported as a hang" },
     Family { name: "faulty", props: &["C06"], kinds: &["handler", "error", "panic", "hang"], gen: g_faulty,
@@ -564,7 +592,7 @@ pub const FAMILIES: &[Family] = &[
     Family { name: "containers", props: &["C08"], kinds: &["handler", "args", "error", "rest", "panic", "hang"], gen: g_containers,
         bound: "payloads of 1..=3 bytes from 12 special bytes in strings of both quote kinds and blocks, 4 message shapes; run whole and process (N = 64) with a read boundary at every position; reference = one run over the whole stream" },
     Family { name: "queue", props: &["C09"], kinds: &["queue", "error", "response", "handler", "panic", "hang"], gen: g_queue,
-        bound: "queue of capacity 3: every sequence of 1..=4 operations from a pool of 12 (22 620); every sequence of 1..=9 operations from {undefined header, handler error, ERRor?, COUNt?} followed by a drain (349 524); every error number -420..=60 raised and read back" },
+        bound: "queue of capacity 3: every sequence of 1..=4 operations from a pool of 12 (22 620); every sequence of 1..=9 operations from {undefined header, handler error, ERRor?, COUNt?} followed by a drain (349 524); every error number -420..=60 raised and read back; each on the logging device and on the device that owns StaticErrorQueue directly" },
     Family { name: "transport", props: &["C10"], kinds: &["transport", "panic", "hang"], gen: g_transport,
         bound: "28 streams x N in {8,32} x 4 chunkings (one with empty reads) x a transport error at every call index (and none)" },
     Family { name: "lexical", props: &["C11"], kinds: &["handler", "args", "error", "response", "rest", "panic", "hang"], gen: g_lexical,
